@@ -11,6 +11,9 @@ pub enum Policy {
     Lose,
     /// renew() returns the identity itself and win_addr_conflict is non-strict (`>=`)
     SameEq,
+    /// renew() bumps the generation; win_addr_conflict compares half the generation, so a renewed identity can
+    /// differ from the old one while neither wins
+    Tie,
 }
 
 impl Policy {
@@ -21,6 +24,7 @@ impl Policy {
             Policy::Same => "same",
             Policy::Lose => "lose",
             Policy::SameEq => "sameeq",
+            Policy::Tie => "tie",
         }
     }
     pub fn parse(s: &str) -> Option<Policy> {
@@ -30,6 +34,7 @@ impl Policy {
             "same" => Policy::Same,
             "lose" => Policy::Lose,
             "sameeq" => Policy::SameEq,
+            "tie" => Policy::Tie,
             _ => return None,
         })
     }
@@ -93,7 +98,7 @@ impl foca::Identity for VId {
     fn renew(&self) -> Option<Self> {
         match self.policy {
             Policy::None => None,
-            Policy::Bump => Some(VId { addr: self.addr, gen: self.gen.wrapping_add(1), policy: self.policy }),
+            Policy::Bump | Policy::Tie => Some(VId { addr: self.addr, gen: self.gen.wrapping_add(1), policy: self.policy }),
             Policy::Same | Policy::SameEq => Some(*self),
             Policy::Lose => Some(VId { addr: self.addr, gen: self.gen.saturating_sub(1), policy: self.policy }),
         }
@@ -107,6 +112,10 @@ impl foca::Identity for VId {
         // nothing obliges an Identity to lose against an identity equal to itself
         if self.policy == Policy::SameEq {
             self.gen >= adversary.gen
+        } else if self.policy == Policy::Tie && adversary.policy == Policy::Tie {
+            // only between the instance's identity and its renewal: records of members never both carry the
+            // flavour (identities read from input or the wire have none)
+            self.gen / 2 > adversary.gen / 2
         } else {
             self.gen > adversary.gen
         }
